@@ -2,6 +2,7 @@ package props
 
 import (
 	"fmt"
+	"go/token"
 	"go/types"
 	"sort"
 	"strings"
@@ -174,4 +175,63 @@ func panicReachRule(p *core.Program, r *core.Report, rule string, entries []*ssa
 	r.Count("reachable_module_functions", nmod)
 	r.Count("reachable_functions", len(reach.Order))
 	return reach
+}
+
+// eqPassEdges returns the CFG edges of fn on which `x == y` is known to hold for a comparison whose operands are
+// accepted by isX / isY (either order), whatever the source form: `x == y` (true edge), `x != y` (false edge),
+// negations, and && / || chains (lowered to nested blocks by go/ssa).
+func eqPassEdges(fn *ssa.Function, isX, isY func(ssa.Value) bool) eng.EdgeSet {
+	out := eng.EdgeSet{}
+	for _, b := range fn.Blocks {
+		for edge := 0; edge < 2; edge++ {
+			c, ok := eng.EdgeCmp(b, edge)
+			if !ok || c.Op != token.EQL {
+				continue
+			}
+			if (isX(c.X) && isY(c.Y)) || (isX(c.Y) && isY(c.X)) {
+				out[[2]int{b.Index, edge}] = true
+			}
+		}
+	}
+	return out
+}
+
+// truePassEdges returns the edges on which a boolean call accepted by isCall is known to have returned true.
+func truePassEdges(fn *ssa.Function, isCall func(*ssa.Call) bool) eng.EdgeSet {
+	out := eng.EdgeSet{}
+	for _, b := range fn.Blocks {
+		ifi := eng.BlockIf(b)
+		if ifi == nil {
+			continue
+		}
+		cond := ifi.Cond
+		neg := false
+		for {
+			u, ok := cond.(*ssa.UnOp)
+			if !ok || u.Op != token.NOT {
+				break
+			}
+			cond, neg = u.X, !neg
+		}
+		call, ok := cond.(*ssa.Call)
+		if !ok || !isCall(call) {
+			continue
+		}
+		if neg {
+			out[[2]int{b.Index, 1}] = true
+		} else {
+			out[[2]int{b.Index, 0}] = true
+		}
+	}
+	return out
+}
+
+// unreachableWithout: block is unreachable from fn's entry once the edges are deleted (and at least one was found).
+func unreachableWithout(fn *ssa.Function, edges eng.EdgeSet, block *ssa.BasicBlock) bool {
+	return len(edges) > 0 && !eng.Reachable(fn.Blocks[0], edges)[block]
+}
+
+func isCallNamed(v ssa.Value, name string) bool {
+	c, ok := v.(*ssa.Call)
+	return ok && c.Call.StaticCallee() != nil && c.Call.StaticCallee().Name() == name
 }
